@@ -149,11 +149,11 @@ CHECKED_SAMPLE = {"quick": 1200, "thorough": 20000}
 _checked_built = [False]
 
 
-def replay(vectors, name, tables, groups="G1,G2", profiles="5", build="release", feature="blst", timeout=3000, also_checked=True):
+def replay(vectors, name, tables, groups="G1,G2", profiles="5", build="release", feature="blst", timeout=3000, also_checked=True, alphabet=None):
     """replay on the real library.  A release/blst replay is followed by a replay of an evenly spaced sample of the
     same vectors on the `checked` build (overflow checks + debug assertions): the properties quantify over inputs,
     not over build profiles, and `cargo test` itself runs a debug profile."""
-    summ = _replay_one(vectors, name, tables, groups, profiles, build, feature, timeout)
+    summ = _replay_one(vectors, name, tables, groups, profiles, build, feature, timeout, alphabet)
     if also_checked and build == "release" and feature == "blst" and not os.environ.get("VERIF_NO_CHECKED") and vectors:
         cap = CHECKED_SAMPLE.get(os.environ.get("VERIF_TIER_NOW", "quick"), 1200)
         step = max(1, len(vectors) // cap)
@@ -173,7 +173,7 @@ def replay(vectors, name, tables, groups="G1,G2", profiles="5", build="release",
     return summ
 
 
-def _replay_one(vectors, name, tables, groups="G1,G2", profiles="5", build="release", feature="blst", timeout=3000):
+def _replay_one(vectors, name, tables, groups="G1,G2", profiles="5", build="release", feature="blst", timeout=3000, alphabet=None):
     if os.environ.get("VERIF_TIER_NOW") == "thorough":
         timeout = max(timeout, 14000)
     os.makedirs(WORK, exist_ok=True)
@@ -184,6 +184,8 @@ def _replay_one(vectors, name, tables, groups="G1,G2", profiles="5", build="rele
             f.write(json.dumps(v) + "\n")
     cmd = [bin_path(build, feature), "replay", "--vectors", vp, "--tables", tables, "--out", op,
            "--groups", groups, "--profiles", profiles, "--seed", str(SEED), "--threads", THREADS, "--max-fail", os.environ.get("VERIF_MAX_FAIL", "25")]
+    if alphabet is not None:
+        cmd += ["--alphabet", str(alphabet)]
     try:
         rc, out, dt = sh(cmd, cwd=WORK, timeout=timeout, check=False)
     except subprocess.TimeoutExpired:
@@ -521,7 +523,7 @@ def replay_file(prop, path):
     tables, _ = export_tables()
     if r.get("build") == "checked":
         build_harness("checked")
-    s = replay([r["vector"]], "replay_" + prop, tables, groups=r["group"], profiles=str(r["atom_len"]), build=r.get("build", "release"))
+    s = replay([r["vector"]], "replay_" + prop, tables, groups=r["group"], profiles=str(r["atom_len"]), build=r.get("build", "release"), alphabet=r.get("alphabet"), also_checked=False)
     log(json.dumps(s["failures"], indent=1))
     if s["failed"]:
         log("VIOLATION property=%s replay=%s" % (prop, path))
